@@ -175,7 +175,18 @@ def run(ctx):
         for n, ps in find_nodes(fn['body'], lambda y: y.get('k') == 'macro' and y['name'] in ('panic', 'unreachable', 'unimplemented', 'todo')):
             key = (fn_file, fn['name'], n['name'])
             ok = key in EVAL_PANICS
-            r5.inst({'file': fn_file, 'fn': fn['name'], 'macro': n['name'], 'line': n['line'], 'discharged_by': EVAL_PANICS.get(key, '-')[:80]}, ok=ok, kind=(fn_file, fn['name'], n['line']))
+            why = EVAL_PANICS.get(key, '-')
+            if not ok:
+                # an arm that the dominating tests on the same place already exclude needs no listing
+                for mb in ctx.mir.bodies:
+                    if mb.file != fn_file or mb.nid.split('::{closure')[0].split('::')[-1] != fn['name']:
+                        continue
+                    for bbm, tmm in mb.calls():
+                        cn = tmm.get('callee') or tmm.get('decl') or ''
+                        if 'panicking' in cn and int(tmm['span'].split(':')[1]) == n['line'] and mirq.arm_infeasible(mb, bbm):
+                            ok = True
+                            why = 'infeasible arm: every path to this match has already excluded the variant (dominating tests on the same place)'
+            r5.inst({'file': fn_file, 'fn': fn['name'], 'macro': n['name'], 'line': n['line'], 'discharged_by': why[:80]}, ok=ok, kind=(fn_file, fn['name'], n['line']))
             if not ok:
                 r5.fail('%s::%s/%s' % (fn_file, fn['name'], n['name']), '%s:%d' % (fn_file, n['line']), 'explicit %s! in the evaluator without a listed checker obligation that makes it unreachable' % n['name'])
     r5.need(6)
